@@ -309,6 +309,12 @@ def run(ctx):
     c02_len.run(ctx, w5, w3)
     from . import c02_layout
     c02_layout.run(ctx, w5, w3)
+    # (added after seeds C02-3a / C02-3b) facts C02 shares with C07 and C16
+    from . import shared
+    n1 = shared.import_obligations(ctx, 'C07', lambda o: o['rule'] == 'R-C07-7', 'R-C02-5', 'the CONNECT packet is built from the connect options field by field')
+    ctx.floor(n1, 20, 'CONNECT-from-options obligations shared with C07', rule='R-C02-5')
+    n2 = shared.import_obligations(ctx, 'C16', lambda o: o['rule'] == 'R-C16-2', 'R-C02-4', 'a 16-bit length prefix is only well-formed if the field was length-validated before encoding')
+    ctx.floor(n2, 20, 'length-validation obligations shared with C16', rule='R-C02-4')
 
     # ---- variable byte integer arithmetic (specification 1.5.5): constants and their roles
     def _binops(v):
